@@ -28,6 +28,11 @@ inductive Op where
   | atomic (x : Loc)
   deriving DecidableEq, Repr, Inhabited
 
+def Op.isLock : Op → Bool
+  | .acq _ => true
+  | .rel _ => true
+  | _ => false
+
 /-- how a location is protected: every access holds mutex `m`, or nobody writes it while workers exist -/
 inductive Guard where
   | mutex (m : Mtx)
